@@ -3009,3 +3009,133 @@ func ruleRuleFileRefusals(id string) func(*Checker) {
 		c.check(n >= 1, id, "-", "scanner error handed on", "-", fmt.Sprintf("%d site(s)", n), "the line scanner's error is no longer handed on by the rule reader")
 	}
 }
+
+// ---- round 16 ----
+
+// ruleQueuesDrained — the draining entry point returns with both queues empty.
+func ruleQueuesDrained(id string) func(*Checker) {
+	return func(c *Checker) {
+		c.rule(id, "Builder.resolvePending returns only past the empty edge of a length test of EACH pending queue (remote and registry), and nothing that can add to a queue — a store into a pending field, a call of module code, a dynamic call — lies between that edge and the return: analysing a remote artifact can report registry sources (and the reverse), so one pass per queue, or an exit test that looks at one queue only, leaves requests queued when the Add call returns; they are resolved by whichever Add call comes next, or never.", 2)
+		p := c.P
+		fn := p.Fn(bundlePkg, "Builder.resolvePending")
+		if fn == nil {
+			c.anchorMissing(id, "Builder.resolvePending")
+			return
+		}
+		name := p.FuncName(fn)
+		queueOf := func(v ssa.Value) string {
+			cl, ok := v.(*ssa.Call)
+			if !ok {
+				return ""
+			}
+			if bi, ok := cl.Call.Value.(*ssa.Builtin); !ok || bi.Name() != "len" {
+				return ""
+			}
+			f := builderMapOf(cl.Call.Args[0]) // a load of a Builder field
+			if strings.HasPrefix(f, "pending") {
+				return f
+			}
+			return ""
+		}
+		empty := map[string][]Edge{}
+		for _, b := range fn.Blocks {
+			ifi, ok := b.Instrs[len(b.Instrs)-1].(*ssa.If)
+			if !ok {
+				continue
+			}
+			cnd, neg := stripNot(ifi.Cond)
+			bo, ok := cnd.(*ssa.BinOp)
+			if !ok {
+				continue
+			}
+			q := queueOf(bo.X)
+			k, isC := constInt(bo.Y)
+			if q == "" || !isC {
+				continue
+			}
+			emptyOnTrue, known := false, false
+			switch {
+			case (bo.Op == token.GTR || bo.Op == token.NEQ) && k == 0, bo.Op == token.GEQ && k == 1:
+				emptyOnTrue, known = false, true
+			case (bo.Op == token.EQL || bo.Op == token.LEQ) && k == 0, bo.Op == token.LSS && k == 1:
+				emptyOnTrue, known = true, true
+			}
+			if !known {
+				continue
+			}
+			if neg {
+				emptyOnTrue = !emptyOnTrue
+			}
+			if emptyOnTrue {
+				empty[q] = append(empty[q], Edge{b, 0})
+			} else {
+				empty[q] = append(empty[q], Edge{b, 1})
+			}
+		}
+		mayGrow := func(in ssa.Instruction) bool {
+			switch x := in.(type) {
+			case *ssa.Store:
+				if fa, ok := x.Addr.(*ssa.FieldAddr); ok && isNamedT(derefType(fa.X.Type()), "Builder") && strings.HasPrefix(fieldOf(fa).Name(), "pending") {
+					return true
+				}
+			case *ssa.Call:
+				if _, isB := x.Call.Value.(*ssa.Builtin); isB {
+					return false
+				}
+				g := x.Call.StaticCallee()
+				if g == nil {
+					return true // dynamic: a finder, a callback
+				}
+				return p.InModule(g)
+			}
+			return false
+		}
+		rets := returnsOf(fn)
+		var growers []ssa.Instruction
+		eachInstr(fn, func(in ssa.Instruction) {
+			if mayGrow(in) {
+				growers = append(growers, in)
+			}
+		})
+		for _, q := range []string{"pendingRemote", "pendingRegistry"} {
+			cut := map[Edge]bool{}
+			for _, e := range empty[q] {
+				cut[e] = true
+			}
+			// blocks reachable from b's exits without taking an empty edge of q
+			reachNoEmpty := func(b *ssa.BasicBlock) map[*ssa.BasicBlock]bool {
+				seen := map[*ssa.BasicBlock]bool{}
+				work := []*ssa.BasicBlock{b}
+				for len(work) > 0 {
+					x := work[len(work)-1]
+					work = work[:len(work)-1]
+					for k, sct := range x.Succs {
+						if cut[Edge{x, k}] || seen[sct] {
+							continue
+						}
+						seen[sct] = true
+						work = append(work, sct)
+					}
+				}
+				return seen
+			}
+			for i, r := range rets {
+				okG := len(empty[q]) > 0 && guarded(r.Block(), empty[q])
+				where := p.Pos(r.Pos())
+				why := "the function can return without having seen " + q + " empty: what a finder reported into it during the last pass stays queued when the Add call returns"
+				if okG {
+					for _, g := range growers {
+						if (g.Block() == r.Block() && instrIndex(g) < instrIndex(r)) || reachNoEmpty(g.Block())[r.Block()] {
+							okG = false
+							where = p.Pos(g.Pos())
+							why = q + " is seen empty, but code that can add to it runs after that test and the function returns without looking again: what is reported into it then stays queued when the Add call returns"
+							break
+						}
+					}
+				}
+				c.check(okG, id, name, fmt.Sprintf("return %d past the empty test of %s", i, q), where, "returns with "+q+" empty, and nothing that can add to it runs after the last test", why)
+			}
+		}
+		c.check(len(rets) > 0, id, name, "returns", p.Pos(fn.Pos()), fmt.Sprintf("%d return(s)", len(rets)), "the draining entry point has no return")
+	}
+}
